@@ -41,6 +41,7 @@ package cron
 // processing across all locations.
 
 import (
+	"errors"
 	"fmt"
 	"sort"
 	"sync"
@@ -166,6 +167,10 @@ func (tl Timeline) Search(t time.Time) int {
 		return t.Before(tl[i].Next)
 	})
 }
+
+// NoFutureOccurrence is what Add reports for a schedule that has no
+// occurrence in the future (any more).
+var NoFutureOccurrence = errors.New("schedule has no future occurrence")
 
 // Cron implements a little in-memory cron system.
 //
@@ -511,9 +516,8 @@ func (c *Cron) schedule(ctx *core.Context, job *CronJob, checkLimit bool) error 
 			// over.
 			if checkLimit {
 				// (from Add)
-				err := fmt.Errorf("schedule of job %s has no future occurrence", job.Id)
-				core.Log(core.WARN|CRON, ctx, "Cron.schedule", "error", err, "name", c.Name)
-				return err
+				core.Log(core.WARN|CRON, ctx, "Cron.schedule", "error", NoFutureOccurrence, "job", job.Id, "name", c.Name)
+				return NoFutureOccurrence
 			}
 			// (from run: that was the last occurrence)
 			return nil
